@@ -17,13 +17,13 @@ import itertools
 from hypothesis import strategies as st
 
 LANG_CONSTRUCTS = {
-    "python": {"s", "if", "wh", "fi", "br", "co", "rt", "sw", "def", "whelse"},
-    "javascript": {"swbreak", "s", "if", "wh", "fi", "fc", "dw", "br", "co", "rt", "sw", "def", "empty"},
-    "typescript": {"swbreak", "s", "if", "wh", "fi", "fc", "dw", "br", "co", "rt", "sw", "empty"},
-    "java": {"swbreak", "s", "if", "wh", "fi", "fc", "dw", "br", "co", "rt", "sw", "empty"},
+    "python": {"tryjump", "s", "if", "wh", "fi", "br", "co", "rt", "sw", "def", "whelse", "try", "tryelse"},
+    "javascript": {"tryjump", "try", "swbreak", "s", "if", "wh", "fi", "fc", "dw", "br", "co", "rt", "sw", "def", "empty"},
+    "typescript": {"tryjump", "try", "swbreak", "s", "if", "wh", "fi", "fc", "dw", "br", "co", "rt", "sw", "empty"},
+    "java": {"tryjump", "try", "swbreak", "s", "if", "wh", "fi", "fc", "dw", "br", "co", "rt", "sw", "empty"},
     "c": {"swbreak", "s", "if", "wh", "fc", "dw", "br", "co", "rt", "sw", "empty"},
     "go": {"swbreak", "s", "if", "wh", "fi", "fc", "br", "co", "rt", "sw", "empty"},
-    "php": {"swbreak", "s", "if", "wh", "fi", "fc", "dw", "br", "co", "rt", "sw", "empty"},
+    "php": {"tryjump", "try", "swbreak", "s", "if", "wh", "fi", "fc", "dw", "br", "co", "rt", "sw", "empty"},
 }
 LANG_EXT = {"python": "py", "javascript": "js", "typescript": "ts", "java": "java", "c": "c", "go": "go", "php": "php"}
 LOOP_KINDS = ("wh", "fi", "fc", "dw")
@@ -56,7 +56,20 @@ def constructs_of(shape_block, acc=None):
                 constructs_of(b, acc)
             if s[2] is not None:
                 constructs_of(s[2], acc)
+        elif k == "try":
+            # ("try", body, handler|None, else|None, final|None, raises)
+            for b in s[1:5]:
+                if b is not None:
+                    constructs_of(b, acc)
+            if s[3] is not None:
+                acc.add("tryelse")
+            if s[5]:
+                acc.add("raise")
     return acc
+
+
+def has_jump(block):
+    return bool(constructs_of(block) & {"br", "co", "rt", "raise"})
 
 
 def size_of(block):
@@ -72,6 +85,8 @@ def size_of(block):
             n += size_of(s[1])
         elif k == "sw":
             n += sum(size_of(b) for b in s[1]) + (size_of(s[2]) if s[2] is not None else 0)
+        elif k == "try":
+            n += sum(size_of(b) for b in s[1:5] if b is not None) + (1 if s[5] else 0)
     return n
 
 
@@ -132,6 +147,21 @@ def enum_stmts(n, depth, in_loop, in_switch, kinds):
             for a in enum_blocks(k, depth - 1, True, False, kinds):
                 for b in enum_blocks(m - k, depth - 1, in_loop, in_switch, kinds):
                     yield ("wh", a, b)
+    if "try" in kinds and m >= 2:
+        # try body / handler (+ finally), with and without a raise at the end of the body
+        for k in range(1, m):
+            for a in enum_blocks(k, depth - 1, in_loop, in_switch, kinds):
+                for h in enum_blocks(m - k, depth - 1, in_loop, in_switch, kinds):
+                    yield ("try", a, h, None, None, False)
+                    if a[-1][0] not in ("br", "co", "rt"):
+                        yield ("try", a, h, None, None, True)
+        if m >= 3:
+            inner = kinds if "tryjump" in kinds else kinds - {"br", "co", "rt"}
+            for k in range(1, m - 1):
+                for a in enum_blocks(k, depth - 1, in_loop, in_switch, inner):
+                    for f in enum_blocks(m - k - 1, depth - 1, in_loop, in_switch, kinds - {"br", "co", "rt"}):
+                        yield ("try", a, (("s",),), None, f, "tryjump" in kinds and a[-1][0] not in ("br", "co", "rt"))
+                        yield ("try", a, None, None, f, False)
     if "sw" in kinds and m >= 2:
         # two cases, optional default
         for k in range(1, m):
@@ -174,7 +204,7 @@ def shapes(kinds, max_nodes=9, depth=3):
             if in_loop and "co" in kinds:
                 opts += ["co", "co"]
             if d > 0 and budget >= 2:
-                for k in ("if", "if", "if", "wh", "fi", "fc", "dw", "sw"):
+                for k in ("if", "if", "if", "wh", "fi", "fc", "dw", "sw", "try"):
                     if k in kinds:
                         opts.append(k)
             k = opts[draw(st.integers(0, len(opts) - 1))]
@@ -210,6 +240,25 @@ def shapes(kinds, max_nodes=9, depth=3):
                 dflt = draw(block(2, d - 1, in_loop, True)) if draw(st.booleans()) else None
                 budget -= size_of(a) + size_of(b) + (size_of(dflt) if dflt else 0)
                 out.append(("sw", (a, b), dflt))
+            elif k == "try":
+                a = draw(block(3, d - 1, in_loop, in_switch))
+                h = draw(block(2, d - 1, in_loop, in_switch)) if draw(st.integers(0, 3)) > 0 else None
+                f = draw(block(2, d - 1, False, False)) if (h is None or draw(st.booleans())) else None
+                if f is not None:
+                    f = tuple(x for x in f if x[0] not in ("br", "co", "rt")) or (("s",),)
+                e = None
+                if "tryelse" in kinds and h is not None and draw(st.integers(0, 3)) == 0:
+                    e = draw(block(2, d - 1, in_loop, in_switch))
+                raises = a[-1][0] not in ("br", "co", "rt") and draw(st.booleans())
+                if f is not None and "tryjump" not in kinds:
+                    # step-over: no jump may leave a try statement that has a finally body
+                    if has_jump(a) or (h is not None and has_jump(h)) or (e is not None and has_jump(e)):
+                        f = None
+                    raises = False
+                if h is None and f is None:
+                    h = (("s",),)
+                budget -= sum(size_of(x) for x in (a, h, e, f) if x is not None)
+                out.append(("try", a, h, e, f, raises))
         return tuple(out)
     return block(max_nodes, depth, False, False)
 
@@ -401,6 +450,35 @@ def render_block(r, block, level, counter, cond):
                 if s[2] is not None:
                     out.append("%sdefault:" % ind)
                     out += render_block(r, s[2], level + 1, counter, cond)
+                out.append("%s}" % ind)
+        elif k == "try":
+            body, handler, els, final, raises = s[1], s[2], s[3], s[4], s[5]
+            if r.py:
+                out.append("%stry:" % ind)
+                out += render_block(r, body, level + 1, counter, cond)
+                if raises:
+                    out.append("%s    raise ValueError()" % ind)
+                if handler is not None:
+                    out.append("%sexcept Exception:" % ind)
+                    out += render_block(r, handler, level + 1, counter, cond)
+                if els is not None:
+                    out.append("%selse:" % ind)
+                    out += render_block(r, els, level + 1, counter, cond)
+                if final is not None:
+                    out.append("%sfinally:" % ind)
+                    out += render_block(r, final, level + 1, counter, cond)
+            else:
+                out.append("%stry {" % ind)
+                out += render_block(r, body, level + 1, counter, cond)
+                if raises:
+                    out.append("%s    throw new Exception(%s);" % (ind, '"e"'))
+                if handler is not None:
+                    catch = {"java": "catch (Exception ex) {", "php": "catch (Exception $ex) {"}.get(r.lang, "catch (ex) {")
+                    out.append("%s} %s" % (ind, catch))
+                    out += render_block(r, handler, level + 1, counter, cond)
+                if final is not None:
+                    out.append("%s} finally {" % ind)
+                    out += render_block(r, final, level + 1, counter, cond)
                 out.append("%s}" % ind)
         else:
             raise ValueError(k)
